@@ -86,11 +86,18 @@ let nest_trace (selective: bool) (kind: string) (scripts: step list list) (ops: 
       | HSelf -> Some HSelf
       | HOf (l, k) -> let l = int_of_nat l in if inner_of l = c then Some (HOf (nat_of_int (l - base c), k)) else None) stp.fires } in
   let leaves c = List.map (List.map (localise c)) (if c = 0 then List.filteri (fun i _ -> i < half) scripts else List.filteri (fun i _ -> i >= half) scripts) in
-  let run_level scs hist = if kind = "nest_mm" then tr (merge_world selective scs hist) else tr (join_world selective false false scs hist) in
-  (* the outer level of nest_jt is the two-argument trait method a.join(b): the tuple algorithm *)
-  let run_outer scs hist = if kind = "nest_jt" then tr (join_world selective false true scs hist) else run_level scs hist in
+  let streams = (kind = "nest_mm" || kind = "nest_gm") in
+  let run_level scs hist = if streams then tr (merge_world selective scs hist) else tr (join_world selective false false scs hist) in
+  (* the outer level of nest_jt is the two-argument trait method a.join(b): the tuple algorithm; of nest_gj / nest_gm a group into which the two
+     inner combinators were inserted at construction (a member's script is handed over at its insert) *)
+  let run_outer scs hist =
+    if kind = "nest_jt" then tr (join_world selective false true scs hist)
+    else if kind = "nest_gj" || kind = "nest_gm" then
+      tr (group_world selective streams O (List.map (fun sc -> OMut (O, O, sc)) scs @ hist))
+    else run_level scs hist in
+  let otr = ref (List.length (run_outer [[]; []] [])) in       (* a group: the events of the two inserts *)
   let ihist = [| []; [] |] and itr = [| 0; 0 |] and ipolled = [| false; false |] in
-  let oscs = [| []; [] |] and ohist = ref [] and otr = ref 0 in
+  let oscs = [| []; [] |] and ohist = ref [] in
   let out = ref [] in
   let emit s = out := s :: !out in
   let to_ans o = (match o with OVals _ | OOk _ -> AReady (ROk O) | OErr e -> AReady (RErr e) | OSome (_, v :: _) -> AItem v | OSome (_, []) -> AItem O | ONone -> AEnd | OErrs _ -> AReady (RErr O)) in
@@ -103,10 +110,12 @@ let nest_trace (selective: bool) (kind: string) (scripts: step list list) (ops: 
     List.iter (fun e -> match e with EW p -> emit (Printf.sprintf "W%d" (int_of_nat p)) | _ -> ()) d end in
   let results = ref [] in
   let dropped = ref false in
+  let ended = ref false in       (* a group is never finished for the model (it can be refilled); the harness stops polling a nest that returned None *)
   (* non-selective build: an inner combinator numbers the caller's wakers it has seen itself; pmap.(c) translates its numbers into the outer ones *)
   let pmap = [| Hashtbl.create 8; Hashtbl.create 8 |] and last_opid = [| -1; -1 |] in
   let tr_pid c p = (match Hashtbl.find_opt pmap.(c) (int_of_nat p) with Some q -> q | None -> int_of_nat p) in
   List.iter (fun o -> match o with
+    | (OPollFresh | OPollSame) when !ended -> ()
     | OPollFresh | OPollSame ->
         (* what each inner combinator would answer if it were polled now *)
         (* which parent waker does this poll of the outer combinator carry?  (none: the poll is ignored, the combinator has finished or was dropped) *)
@@ -157,7 +166,10 @@ let nest_trace (selective: bool) (kind: string) (scripts: step list list) (ops: 
            | ED :: r -> emit "d"; dropped := true; walk r pending
            | EEndP :: r -> emit "E:P"; walk r pending
            | EEndX :: r -> emit "E:X"; walk r pending
-           | EEndR ONone :: r -> emit "E:N"; walk r pending
+           | EEndR ONone :: r -> emit "E:N"; ended := true; walk r pending
+           | EEndR (OSome (Some k, _)) :: r when kind = "nest_gj" ->      (* the member in slot k (= inner combinator k) has resolved: its output vector *)
+               let vs = (match List.assoc_opt (int_of_nat k) !results with Some (OVals vs) -> vs | _ -> []) in
+               emit ("E:S[" ^ ints vs ^ "]"); walk r pending
            | EEndR (OSome (_, vs)) :: r -> emit ("E:S[" ^ ints vs ^ "]"); walk r pending
            | EEndR _ :: r ->
                let vals c = (match List.assoc_opt c !results with Some (OVals vs) -> vs | _ -> []) in
@@ -210,12 +222,12 @@ let () =
           | "wait_stream" -> run_wait true scripts ops
           | "fgroup" | "fgroup_keyed" -> run_group selective false (nat_of_int n) ops
           | "sgroup" | "sgroup_keyed" -> run_group selective true (nat_of_int n) ops
-          | "nest_jj" | "nest_mm" | "nest_jt" -> []
+          | "nest_jj" | "nest_mm" | "nest_jt" | "nest_gj" | "nest_gm" -> []
           | _ -> failwith "comb" in
         (* the keys of members born through extend are not observable: their K tokens are printed as a bare `k` (the i-th EK belongs to the i-th insert) *)
         let nk = ref 0 in
         let toks = List.map (fun e -> match e with EK _ -> let i = !nk in incr nk; if Hashtbl.mem ext_born i then "k" else show_ev e | _ -> show_ev e) tr in
-        let toks = if comb = "nest_jj" || comb = "nest_mm" || comb = "nest_jt" then nest_trace selective comb scripts ops else toks in
+        let toks = if List.mem comb ["nest_jj"; "nest_mm"; "nest_jt"; "nest_gj"; "nest_gm"] then nest_trace selective comb scripts ops else toks in
         print_endline (String.concat " " (id :: toks))
       | _ -> failwith "case"
     end
